@@ -528,7 +528,11 @@ func ruleWindow(c *Ctx, rule string) {
 	}
 	ob4 := r.Ob(rule, "findMatches: Limit(last) follows every push when last != 0", c.pos(s.fn.Pos()))
 	if limit == nil {
-		ob4.Bad("no Queue.Limit call in the scan loop: `last n` is not applied")
+		if push == nil {
+			ob4.Und("the scan loop keeps its matches in something other than the queue (no Push, no Limit): how `last n` trims them is not followed")
+		} else {
+			ob4.Bad("no Queue.Limit call in the scan loop: `last n` is not applied")
+		}
 	} else if push != nil {
 		ob4.Pos = c.pos(limit.Pos())
 		pl := map[string]bool{}
@@ -696,7 +700,22 @@ func ruleScanDiscipline(c *Ctx, rule string) {
 		return res, found
 	}
 	want := "(STATE.status == 0) && (len(STATE.currentMatch) != 0)"
+	wantLits := []string{"(STATE.status == 0)", "(len(STATE.currentMatch) != 0)"}
+	negLits := []string{"(STATE.status != 0)", "(len(STATE.currentMatch) == 0)"}
+	canon := func(g string) map[string]bool {
+		g = strings.ReplaceAll(g, "(len(STATE.currentMatch) > 0)", "(len(STATE.currentMatch) != 0)")
+		g = strings.ReplaceAll(g, "(len(STATE.currentMatch) <= 0)", "(len(STATE.currentMatch) == 0)")
+		m := map[string]bool{}
+		for _, l := range strings.Split(g, " && ") {
+			if l != "" {
+				m[l] = true
+			}
+		}
+		return m
+	}
 	var problems []string
+	// the definition made on a successful non-empty attempt reaches the back edge only under `success && non-empty` (further
+	// decisions of the iteration - which window a match falls into, how the kept matches are trimmed - may lie on the way) ...
 	for _, pk := range []struct {
 		p    *ssa.Phi
 		kind string
@@ -707,9 +726,30 @@ func ruleScanDiscipline(c *Ctx, rule string) {
 			continue
 		}
 		for _, g := range gs {
-			g = strings.ReplaceAll(g, "(len(STATE.currentMatch) > 0)", "(len(STATE.currentMatch) != 0)")
-			if g != want {
-				problems = append(problems, fmt.Sprintf("%s of %s happens under [%s], expected [%s]", pk.kind, pk.p.Comment, g, want))
+			m := canon(g)
+			for _, w := range wantLits {
+				if !m[w] {
+					problems = append(problems, fmt.Sprintf("%s of %s happens under [%s], which does not include %s", pk.kind, pk.p.Comment, g, w))
+				}
+			}
+		}
+	}
+	// ... and the other definition (one step forward for the position, unchanged for the counter) never under both
+	for _, pk := range []struct {
+		p    *ssa.Phi
+		kind string
+	}{{s.off, "step"}, {s.num, "keep"}} {
+		gs, _ := guardOf(pk.p, pk.kind)
+		for _, g := range gs {
+			m := canon(g)
+			excluded := false
+			for _, nl := range negLits {
+				if m[nl] {
+					excluded = true
+				}
+			}
+			if !excluded {
+				problems = append(problems, fmt.Sprintf("%s of %s happens under [%s], which does not exclude a successful non-empty attempt", pk.kind, pk.p.Comment, g))
 			}
 		}
 	}
